@@ -30,7 +30,7 @@ RULE = (
     "executed history is validated against the reference model 'fresh object fitted once on the last-fit data'"
 )
 LEVEL_TEXT = (
-    "exhaustive BFS of the operation graph to the stated depth for each of 9 subject classes; the invariant (answers = fresh "
+    "exhaustive BFS of the operation graph to the stated depth for each of 10 subject classes; the invariant (answers = fresh "
     "model's answers, inputs unmodified, underlying model intact after rotator/bootstrapper fit) is evaluated in every state"
 )
 ASSUMPTIONS = [
@@ -119,7 +119,7 @@ YOF = {"D1": "E1", "D2": "E2", "D3": "E3", "DnewA": "EnewA", "DnewB": "EnewB"}
 
 # ----------------------------------------------------------------------------- subjects
 
-SUBJECTS = ["EOF", "EOF2s", "SparsePCA", "POP", "CPCCA", "MCA", "EOF+Rotator", "MCA+Rotator", "EOF+Bootstrapper"]
+SUBJECTS = ["EOF", "EOF2s", "SparsePCA", "POP", "OPA", "CPCCA", "MCA", "EOF+Rotator", "MCA+Rotator", "EOF+Bootstrapper"]
 TWO = {"EOF2s"}  # subjects whose data sets have two sample dimensions (time, run)
 CROSS = {"CPCCA", "MCA", "MCA+Rotator"}
 
@@ -131,9 +131,12 @@ def new_system(subject):
     if subject in ("EOF", "EOF2s", "EOF+Rotator", "EOF+Bootstrapper"):
         s["model"] = xe.single.EOF(n_modes=3, random_state=3)
     elif subject == "SparsePCA":
-        s["model"] = xe.single.SparsePCA(n_modes=2, alpha=1e-3, random_state=3, solver="full")
+        # a genuinely lossy sketch (k + oversample < rank): the result depends on the random draws, i.e. on the seed
+        s["model"] = xe.single.SparsePCA(n_modes=2, alpha=1e-3, random_state=3, solver="randomized", oversample=0)
     elif subject == "POP":
         s["model"] = xe.single.POP(n_modes=2, n_pca_modes=3, random_state=3)
+    elif subject == "OPA":
+        s["model"] = xe.single.OPA(n_modes=2, tau_max=2, n_pca_modes=3, random_state=3)
     elif subject == "CPCCA":
         s["model"] = xe.cross.CPCCA(n_modes=2, alpha=0.5, use_pca=True, n_pca_modes=3, random_state=3)
     elif subject in ("MCA", "MCA+Rotator"):
@@ -231,6 +234,7 @@ def _metrics(subject, m):
         "EOF2s": ["explained_variance", "explained_variance_ratio", "singular_values"],
         "SparsePCA": ["explained_variance", "explained_variance_ratio"],
         "POP": ["eigenvalues", "periods", "damping_times"],
+        "OPA": ["decorrelation_time", "filter_patterns"],
         "CPCCA": ["squared_covariance_fraction", "cross_correlation_coefficients"],
         "MCA": ["squared_covariance_fraction", "covariance_fraction_CD95"],
     }[subject.split("+")[0]]
